@@ -148,6 +148,12 @@ structure SpecSt where
 
 /-! ## the predicate -/
 
+/-- the first one wins -/
+def firstOf {α : Type} (old : Option α) (new : α) : Option α :=
+  match old with
+  | some x => some x
+  | none => some new
+
 /-- the C07 clauses of one wait inside a synchronous call with timeout `T` -/
 def pollClause (ep : EpSt) (T : Int) (t : Int) (ready : Bool) : Except String EpSt :=
   if T < 0 then
@@ -173,8 +179,8 @@ def Abort.msg : Abort → String
 def specStep (s : SpecSt) : Obs → Except String SpecSt
   | .setup async tls => .ok { s with ep := some { async, tls } }
   | .payload p => .ok { s with spay := p }
-  | .pre x => .ok { s with xsentAtKill := s.xsentAtKill <|> some x }
-  | .after o b => .ok { s with order := s.order <|> some (o, b) }
+  | .pre x => .ok { s with xsentAtKill := firstOf s.xsentAtKill x }
+  | .after o b => .ok { s with order := firstOf s.order (o, b) }
   | .api op T =>
     match s.ep with
     | some ep => .ok { s with ep := some { ep with recvOp := op == .recv, callT := if op == .other then none else T, spent := 0 } }
@@ -411,13 +417,13 @@ def sysStep (m : Sys) : Op → Sys × List Obs
       | bs :: _ => if p.a.delivered.length = m.x.a.delivered.length + 1 then bs else []
       | [] => []
     ({ m with x := p, got := m.got ++ newGot }, stepObs m.x.a o p)
-  | .pre xsent => ({ m with xsentPre := m.xsentPre <|> some xsent }, [.pre xsent])
+  | .pre xsent => ({ m with xsentPre := firstOf m.xsentPre xsent }, [.pre xsent])
   | .kill kind pread reset sends =>
     if m.killed.isSome then (m, []) else
     ({ m with x := { m.x with w := { m.x.w with dead := true, waits := [], sends := m.x.w.sends ++ sends,
                                                 recvs := killRecvs m.x.w.recvs reset } },
               killed := some (kind, pread), lossy := reset.isSome }, [.kill kind pread])
-  | .after o b => ({ m with ord := m.ord <|> some (o, b) }, [.after o b])
+  | .after o b => ({ m with ord := firstOf m.ord (o, b) }, [.after o b])
   | .destroy =>
     if ¬ m.async ∨ m.destroyed then (m, []) else
     ({ m with destroyed := true },
@@ -855,5 +861,385 @@ theorem send_facts (T : Int) (w : Script) (bs : Bytes) (hs : saneSends w.sends =
     · rename_i h1 h2
       have hT : 0 < T := by omega
       exact sendSome_facts T hT w bs _ _ 0 hs (by show w.clock + T - T ≤ w.clock; omega) (by show w.clock + T - T ≤ w.clock; omega)
+
+
+/-! ### invariants of the scenario model, the simulation relation, the "played to its end" counters -/
+
+/-- the bytes of the pending `recv` answers -/
+def dataOf : List RecvAns → Bytes
+  | [] => []
+  | .data bs :: rest => bs ++ dataOf rest
+  | .fail _ :: rest => dataOf rest
+
+/-- pending `recv` answers: non-empty segments of at most `rsz` bytes; only after a lossy kill one error, last -/
+def recvsOk (rsz : Nat) (lossy : Bool) : List RecvAns → Prop
+  | [] => True
+  | .data bs :: rest => bs ≠ [] ∧ bs.length ≤ rsz ∧ recvsOk rsz lossy rest
+  | .fail _ :: rest => lossy = true ∧ rest = []
+
+theorem dataOf_append (a b : List RecvAns) : dataOf (a ++ b) = dataOf a ++ dataOf b := by
+  induction a with
+  | nil => rfl
+  | cons x a ih => cases x <;> simp [dataOf, ih]
+
+theorem recvsOk_snoc (rsz : Nat) (c : Bytes) (hc : c ≠ []) (hl : c.length ≤ rsz) :
+    ∀ l, recvsOk rsz false l → recvsOk rsz false (l ++ [.data c])
+  | [], _ => ⟨hc, hl, trivial⟩
+  | .data bs :: rest, h => ⟨h.1, h.2.1, recvsOk_snoc rsz c hc hl rest h.2.2⟩
+  | .fail _ :: _, h => by cases h.1
+
+theorem recvsOk_kill (rsz : Nat) (e : Nat) : ∀ (k : Nat) (l : List RecvAns), recvsOk rsz false l →
+    recvsOk rsz true (l.take k ++ [.fail e])
+  | 0, _, _ => ⟨rfl, rfl⟩
+  | _ + 1, [], _ => ⟨rfl, rfl⟩
+  | k + 1, .data bs :: rest, h => ⟨h.1, h.2.1, recvsOk_kill rsz e k rest h.2.2⟩
+  | _ + 1, .fail _ :: _, h => by cases h.1
+
+theorem recvsOk_mono (rsz : Nat) : ∀ l, recvsOk rsz false l → recvsOk rsz true l
+  | [], _ => trivial
+  | .data _ :: rest, h => ⟨h.1, h.2.1, recvsOk_mono rsz rest h.2.2⟩
+  | .fail _ :: _, h => by cases h.1
+
+def ordOr {α : Type} (a b : Option α) : Option α :=
+  match a with
+  | some x => some x
+  | none => b
+
+structure MInv (m : Sys) : Prop where
+  psent : m.psent ≤ m.ppay.length
+  recvs : recvsOk m.rsz m.lossy m.x.w.recvs
+  stream : ∃ lost, m.ppay.take m.psent = m.got ++ dataOf m.x.w.recvs ++ lost ∧ (m.lossy = false → lost = [])
+  dead : m.x.w.dead = m.killed.isSome
+  kwaits : m.killed.isSome = true → m.x.w.waits = []
+  sane : saneSends m.x.w.sends = true
+  lossyK : m.lossy = true → ∃ k p, m.killed = some (k, p) ∧ orderly k p m.xsentPre = false
+  kreal : ∀ k p, m.killed = some (k, p) → k.real = true
+  adisc : m.x.a.disconnects ≤ 1
+  areg : m.x.a.disconnects = 1 ↔ m.x.a.registered = false
+  pollq : m.x.a.pollOut = true → m.x.a.sendQ ≠ []
+  unreg : m.x.a.registered = false → m.killed.isSome = true ∧ m.x.w.recvs = []
+  rthrew : m.rthrew = true → m.killed.isSome = true ∧ m.x.w.recvs = [] ∧ m.threw = true
+  threwK : m.threw = true → m.killed.isSome = true
+
+structure Rel (m : Sys) (sp : SpecSt) : Prop where
+  ep : ∃ ep, sp.ep = some ep ∧ ep.async = m.async ∧ ep.tls = false ∧ ep.callT = none ∧ ep.discSeen = m.x.a.disconnects
+  spay : sp.spay = m.ppay
+  kill : sp.kill = m.killed
+  pre : sp.xsentAtKill = m.xsentPre
+  ord : sp.order = m.ord
+  threw : m.threw = true → sp.threwAfterKill = true
+  destroyed : sp.destroyed = m.destroyed
+  enqs : sp.enqs.length = m.x.a.futures.length + m.x.a.sendQ.length
+  live : m.x.a.registered = true → ∀ b ∈ sp.enqs, b = false
+  futs : sp.futs = m.x.a.futures.length + (if m.destroyed then m.x.a.sendQ.length else 0)
+
+/-- what is left of the history is enough to play the scenario to its end -/
+structure Live (ord : Option (List Phase × Nat)) (m : Sys) (rest : List Op) : Prop where
+  ordEq : ordOr m.ord (firstAfter rest) = ord
+  steps : m.async = true → m.killed.isSome = true → m.x.a.registered = true → ordList ord ≠ [] →
+    m.destroyed = false ∧ liveSteps rest > m.x.w.recvs.length
+  recvs : m.async = false → m.killed.isSome = true → m.rthrew = false → (ordList ord).contains .r = true →
+    recvOps rest > m.x.w.recvs.length
+  sends : m.async = false → ∀ k p, m.killed = some (k, p) → m.threw = false → needSend ord k = true →
+    (ordList ord).contains .r = false → sendOps rest > m.x.w.sends.length
+
+/-- the conclusion of every one-step lemma -/
+def StepOk (ord : Option (List Phase × Nat)) (m : Sys) (sp : SpecSt) (op : Op) (rest : List Op) : Prop :=
+  ∃ sp', (∀ tail, specRun sp ((sysStep m op).2 ++ tail) = specRun sp' tail) ∧
+    Rel (sysStep m op).1 sp' ∧ MInv (sysStep m op).1 ∧ Live ord (sysStep m op).1 rest
+
+theorem step_pre (ord) (m : Sys) (sp : SpecSt) (x : Nat) (rest : List Op)
+    (hR : Rel m sp) (hI : MInv m) (hL : Live ord m (.pre x :: rest)) (hok : opOk ord m (.pre x) rest = true) :
+    StepOk ord m sp (.pre x) rest := by
+  refine ⟨{ sp with xsentAtKill := firstOf sp.xsentAtKill x }, ?_, ?_, ?_, ?_⟩
+  · intro tail; simp [sysStep, specRun, specStep]
+  · exact ⟨hR.ep, hR.spay, hR.kill, by simp [sysStep, hR.pre], hR.ord, hR.threw, hR.destroyed, hR.enqs, hR.live, hR.futs⟩
+  · have hx : m.lossy = true → firstOf m.xsentPre x = m.xsentPre := by
+      intro hl
+      obtain ⟨k, p, hk, _⟩ := hI.lossyK hl
+      simp only [opOk, hk, Option.isNone_some, Bool.false_or] at hok
+      cases hp : m.xsentPre with
+      | none => simp [hp] at hok
+      | some v => rfl
+    refine { hI with lossyK := ?_ }
+    intro hl
+    obtain ⟨k, p, hk, ho⟩ := hI.lossyK hl
+    exact ⟨k, p, hk, by show orderly k p (firstOf m.xsentPre x) = false; rw [hx hl]; exact ho⟩
+  · exact ⟨hL.ordEq, hL.steps, hL.recvs, hL.sends⟩
+
+
+theorem step_after (ord) (m : Sys) (sp : SpecSt) (o : List Phase) (b : Nat) (rest : List Op)
+    (hR : Rel m sp) (hI : MInv m) (hL : Live ord m (.after o b :: rest)) :
+    StepOk ord m sp (.after o b) rest := by
+  refine ⟨{ sp with order := firstOf sp.order (o, b) }, ?_, ?_, ?_, ?_⟩
+  · intro tail; simp [sysStep, specRun, specStep]
+  · exact ⟨hR.ep, hR.spay, hR.kill, hR.pre, by simp [sysStep, hR.ord], hR.threw, hR.destroyed, hR.enqs, hR.live, hR.futs⟩
+  · exact { hI with }
+  · refine ⟨?_, hL.steps, hL.recvs, hL.sends⟩
+    have := hL.ordEq
+    simp only [firstAfter] at this
+    show ordOr (firstOf m.ord (o, b)) (firstAfter rest) = ord
+    cases hm : m.ord with
+    | none => rw [hm] at this; simp only [ordOr] at this; subst this; rfl
+    | some v => rw [hm] at this; simp only [ordOr] at this; subst this; rfl
+
+theorem take_add_drop (l : Bytes) (a n : Nat) : l.take (a + ((l.drop a).take n).length) = l.take a ++ (l.drop a).take n := by
+  rw [List.take_add]
+  congr 1
+  rw [List.length_take]
+  exact (List.take_eq_take_min (l := l.drop a) (i := n)).symm
+
+theorem step_psend (ord) (m : Sys) (sp : SpecSt) (n : Nat) (rest : List Op)
+    (hR : Rel m sp) (hI : MInv m) (hL : Live ord m (.psend n :: rest)) :
+    StepOk ord m sp (.psend n) rest := by
+  have hL' : Live ord m rest := ⟨hL.ordEq, hL.steps, hL.recvs, hL.sends⟩
+  by_cases hc : m.killed.isSome ∨ (m.ppay.drop m.psent).take (min n m.rsz) = []
+  · refine ⟨sp, ?_, ?_, ?_, ?_⟩ <;> simp only [sysStep, hc, if_true]
+    · intro tail; rfl
+    · exact hR
+    · exact hI
+    · exact hL'
+  · have hk : m.killed.isSome = false := by
+      cases h : m.killed.isSome
+      · rfl
+      · exact absurd (Or.inl h) hc
+    have hne : (m.ppay.drop m.psent).take (min n m.rsz) ≠ [] := fun h => hc (Or.inr h)
+    have hlossy : m.lossy = false := by
+      cases h : m.lossy
+      · rfl
+      · obtain ⟨k, p, hkk, _⟩ := hI.lossyK h
+        rw [hkk] at hk; cases hk
+    have hreg : m.x.a.registered = true := by
+      cases h : m.x.a.registered
+      · have := (hI.unreg h).1; rw [hk] at this; cases this
+      · rfl
+    refine ⟨sp, ?_, ?_, ?_, ?_⟩ <;> simp only [sysStep, hc, if_false]
+    · intro tail; rfl
+    · exact ⟨hR.ep, hR.spay, hR.kill, hR.pre, hR.ord, hR.threw, hR.destroyed, hR.enqs, hR.live, hR.futs⟩
+    · obtain ⟨lost, hs, hl⟩ := hI.stream
+      have hl0 := hl hlossy
+      subst hl0
+      refine ⟨?_, ?_, ⟨[], ?_, fun _ => rfl⟩, hI.dead, hI.kwaits, hI.sane, hI.lossyK, hI.kreal, hI.adisc, hI.areg, hI.pollq, ?_, ?_, hI.threwK⟩
+      · show m.psent + ((m.ppay.drop m.psent).take (min n m.rsz)).length ≤ m.ppay.length
+        have := hI.psent
+        simp only [List.length_take, List.length_drop]
+        omega
+      · show recvsOk m.rsz m.lossy (m.x.w.recvs ++ [.data ((m.ppay.drop m.psent).take (min n m.rsz))])
+        rw [hlossy]
+        have h0 := hI.recvs
+        rw [hlossy] at h0
+        exact recvsOk_snoc _ _ hne (by simp only [List.length_take]; omega) _ h0
+      · show m.ppay.take (m.psent + ((m.ppay.drop m.psent).take (min n m.rsz)).length)
+            = m.got ++ dataOf (m.x.w.recvs ++ [.data ((m.ppay.drop m.psent).take (min n m.rsz))]) ++ []
+        rw [take_add_drop, hs, dataOf_append]
+        simp [dataOf]
+      · intro h
+        have : m.x.a.registered = false := h
+        rw [hreg] at this; cases this
+      · intro h
+        have := (hI.rthrew h).1
+        rw [hk] at this; cases this
+    · refine ⟨hL'.ordEq, ?_, ?_, ?_⟩
+      · intro _ h; have : m.killed.isSome = true := h; rw [hk] at this; cases this
+      · intro _ h; have : m.killed.isSome = true := h; rw [hk] at this; cases this
+      · intro _ k p h; have : m.killed = some (k, p) := h; rw [this] at hk; cases hk
+
+
+theorem not_killed_facts (m : Sys) (hI : MInv m) (hk : m.killed = none) :
+    m.lossy = false ∧ m.x.a.registered = true ∧ m.rthrew = false ∧ m.threw = false := by
+  refine ⟨?_, ?_, ?_, ?_⟩
+  · cases h : m.lossy
+    · rfl
+    · obtain ⟨k, p, hkk, _⟩ := hI.lossyK h
+      rw [hkk] at hk; cases hk
+  · cases h : m.x.a.registered
+    · have := (hI.unreg h).1; rw [hk] at this; cases this
+    · rfl
+  · cases h : m.rthrew
+    · rfl
+    · have := (hI.rthrew h).1; rw [hk] at this; cases this
+  · cases h : m.threw
+    · rfl
+    · have := hI.threwK h; rw [hk] at this; cases this
+
+theorem saneSends_append (a b : List SendAns) (ha : saneSends a = true) (hb : saneSends b = true) :
+    saneSends (a ++ b) = true := by
+  simp only [saneSends, List.all_append, Bool.and_eq_true] at *
+  exact ⟨ha, hb⟩
+
+theorem step_kill (ord) (m : Sys) (sp : SpecSt) (kind : KillKind) (pread : Nat) (reset : Option (Nat × Nat))
+    (sends : List SendAns) (rest : List Op)
+    (hR : Rel m sp) (hI : MInv m) (hL : Live ord m (.kill kind pread reset sends :: rest))
+    (hok : opOk ord m (.kill kind pread reset sends) rest = true) :
+    StepOk ord m sp (.kill kind pread reset sends) rest := by
+  have hL' : Live ord m rest := ⟨hL.ordEq, hL.steps, hL.recvs, hL.sends⟩
+  by_cases hk : m.killed.isSome = true
+  · refine ⟨sp, ?_, ?_, ?_, ?_⟩ <;> simp only [sysStep, hk, if_true]
+    · intro tail; rfl
+    · exact hR
+    · exact hI
+    · exact hL'
+  · have hk' : m.killed = none := by
+      cases h : m.killed
+      · rfl
+      · rw [h] at hk; exact absurd rfl hk
+    obtain ⟨hlossy, hreg, hrthrew, hthrew⟩ := not_killed_facts m hI hk'
+    simp only [opOk, hk', Option.isSome_none, Bool.false_or, Bool.and_eq_true] at hok
+    obtain ⟨⟨⟨hreal, hsane⟩, hreset⟩, hcount⟩ := hok
+    refine ⟨{ sp with kill := some (kind, pread) }, ?_, ?_, ?_, ?_⟩ <;>
+      simp only [sysStep, hk', Option.isSome_none, Bool.false_eq_true, if_false]
+    · intro tail; simp [specRun, specStep]
+    · exact ⟨hR.ep, hR.spay, rfl, hR.pre, hR.ord, (by intro h; have : m.threw = true := h; rw [hthrew] at this; cases this),
+        hR.destroyed, hR.enqs, hR.live, hR.futs⟩
+    · obtain ⟨lost, hs, hl⟩ := hI.stream
+      have hl0 := hl hlossy
+      subst hl0
+      have hrec := hI.recvs
+      rw [hlossy] at hrec
+      refine ⟨hI.psent, ?_, ?_, rfl, (fun _ => rfl), saneSends_append _ _ hI.sane hsane, ?_, ?_, hI.adisc, hI.areg, hI.pollq, ?_, ?_, (fun _ => rfl)⟩
+      · cases reset with
+        | none => exact hrec
+        | some ke => exact recvsOk_kill _ _ _ _ hrec
+      · cases reset with
+        | none => exact ⟨[], hs, fun _ => rfl⟩
+        | some ke =>
+          refine ⟨dataOf (m.x.w.recvs.drop ke.1), ?_, fun h => by cases h⟩
+          show m.ppay.take m.psent = m.got ++ dataOf (m.x.w.recvs.take ke.1 ++ [.fail ke.2]) ++ dataOf (m.x.w.recvs.drop ke.1)
+          rw [hs, dataOf_append]
+          conv => lhs; rw [← List.take_append_drop ke.1 m.x.w.recvs, dataOf_append]
+          simp [dataOf]
+      · intro h
+        have h' : reset.isSome = true := h
+        refine ⟨kind, pread, rfl, ?_⟩
+        cases reset with
+        | none => cases h'
+        | some ke => simpa using hreset
+      · intro k p h
+        have h' : some (kind, pread) = some (k, p) := h
+        cases h'
+        exact hreal
+      · intro h
+        have : m.x.a.registered = false := h
+        rw [hreg] at this; cases this
+      · intro h
+        have : m.rthrew = true := h
+        rw [hrthrew] at this; cases this
+    · refine ⟨hL'.ordEq, ?_, ?_, ?_⟩
+      · intro ha _ _ ho
+        have ha' : m.async = true := ha
+        simp only [ha', if_true, Bool.or_eq_true, List.isEmpty_iff, Bool.and_eq_true, Bool.not_eq_true', decide_eq_true_eq] at hcount
+        rcases hcount with h | h
+        · exact absurd h ho
+        · exact h
+      · intro ha _ _ hr
+        have ha' : m.async = false := ha
+        simp only [ha', Bool.false_eq_true, if_false, Bool.and_eq_true, Bool.or_eq_true, Bool.not_eq_true', decide_eq_true_eq] at hcount
+        rcases hcount.1 with h | h
+        · rw [h] at hr; cases hr
+        · exact h
+      · intro ha k p h _ hn hr
+        have ha' : m.async = false := ha
+        have h' : some (kind, pread) = some (k, p) := h
+        cases h'
+        simp only [ha', Bool.false_eq_true, if_false, Bool.and_eq_true, Bool.or_eq_true, Bool.not_eq_true', decide_eq_true_eq] at hcount
+        rcases hcount.2 with (h | h) | h
+        · rw [h] at hn; cases hn
+        · rw [h] at hr; cases hr
+        · exact h
+
+
+theorem specRun_broken : ∀ (n start : Nat) (s : SpecSt) (tail : List Obs), s.destroyed = true →
+    specRun s (brokenObs start n ++ tail) = specRun { s with futs := s.futs + n } tail
+  | 0, _, s, tail, _ => by simp [brokenObs]
+  | n + 1, start, s, tail, hd => by
+    have hstep : specStep s (.fut start .broken) = .ok { s with futs := s.futs + 1 } := by
+      simp [specStep, futClause, hd]
+    simp only [brokenObs, List.cons_append, specRun, hstep]
+    refine (specRun_broken n (start + 1) { s with futs := s.futs + 1 } tail hd).trans ?_
+    simp only [Nat.add_assoc, Nat.add_comm 1 n]
+
+theorem step_destroy (ord) (m : Sys) (sp : SpecSt) (rest : List Op)
+    (hR : Rel m sp) (hI : MInv m) (hL : Live ord m (.destroy :: rest)) :
+    StepOk ord m sp .destroy rest := by
+  have hsteps : m.async = true → m.killed.isSome = true → m.x.a.registered = true → ordList ord ≠ [] → False := by
+    intro a b c d
+    have := (hL.steps a b c d).2
+    simp only [liveSteps] at this
+    omega
+  by_cases hc : ¬ m.async = true ∨ m.destroyed = true
+  · refine ⟨sp, ?_, ?_, ?_, ?_⟩ <;> simp only [sysStep, hc, if_true]
+    · intro tail; rfl
+    · exact hR
+    · exact hI
+    · exact ⟨hL.ordEq, fun a b c d => (hsteps a b c d).elim, hL.recvs, hL.sends⟩
+  · have ha : m.async = true := by
+      cases h : m.async
+      · exact absurd (Or.inl (by simp [h])) hc
+      · rfl
+    have hd : m.destroyed = false := by
+      cases h : m.destroyed
+      · rfl
+      · exact absurd (Or.inr h) hc
+    refine ⟨{ sp with destroyed := true, futs := sp.futs + m.x.a.sendQ.length }, ?_, ?_, ?_, ?_⟩ <;>
+      simp only [sysStep, hc, if_false]
+    · intro tail
+      simp only [List.cons_append, specRun, specStep]
+      exact specRun_broken _ _ { sp with destroyed := true } tail rfl
+    · refine ⟨hR.ep, hR.spay, hR.kill, hR.pre, hR.ord, hR.threw, rfl, hR.enqs, hR.live, ?_⟩
+      have := hR.futs
+      rw [hd] at this
+      simp only [Bool.false_eq_true, if_false, Nat.add_zero] at this
+      show sp.futs + m.x.a.sendQ.length = m.x.a.futures.length + (if true = true then m.x.a.sendQ.length else 0)
+      rw [this]; simp
+    · exact { hI with }
+    · refine ⟨hL.ordEq, fun a b c d => (hsteps a b c d).elim, ?_, ?_⟩
+      · intro a; have : m.async = false := a; rw [ha] at this; cases this
+      · intro a; have : m.async = false := a; rw [ha] at this; cases this
+
+theorem step_enq (ord) (m : Sys) (sp : SpecSt) (data : Bytes) (rest : List Op)
+    (hR : Rel m sp) (hI : MInv m) (hL : Live ord m (.enq data :: rest)) :
+    StepOk ord m sp (.enq data) rest := by
+  have hL' : Live ord m rest := ⟨hL.ordEq, hL.steps, hL.recvs, hL.sends⟩
+  by_cases hc : ¬ m.async = true ∨ m.destroyed = true
+  · refine ⟨sp, ?_, ?_, ?_, ?_⟩ <;> simp only [sysStep, hc, if_true]
+    · intro tail; rfl
+    · exact hR
+    · exact hI
+    · exact hL'
+  · have hd : m.destroyed = false := by
+      cases h : m.destroyed
+      · rfl
+      · exact absurd (Or.inr h) hc
+    obtain ⟨ep, hep, he1, he2, he3, he4⟩ := hR.ep
+    refine ⟨{ sp with enqs := sp.enqs ++ [sp.ep.map (·.discSeen) != some 0] }, ?_, ?_, ?_, ?_⟩ <;>
+      simp only [sysStep, hc, if_false]
+    · intro tail; simp [specRun, specStep]
+    · refine ⟨⟨ep, hep, he1, he2, he3, he4⟩, hR.spay, hR.kill, hR.pre, hR.ord, hR.threw, hR.destroyed, ?_, ?_, ?_⟩
+      · show (sp.enqs ++ [_]).length = m.x.a.futures.length + (m.x.a.sendQ ++ [data]).length
+        simp only [List.length_append, List.length_cons, List.length_nil]
+        have := hR.enqs
+        omega
+      · intro hreg b hb
+        have hreg' : m.x.a.registered = true := hreg
+        simp only [List.mem_append, List.mem_singleton] at hb
+        rcases hb with hb | hb
+        · exact hR.live hreg' b hb
+        · have h0 : m.x.a.disconnects = 0 := by
+            have h1 := hI.adisc
+            have h2 : m.x.a.disconnects ≠ 1 := fun h => by
+              have := hI.areg.mp h; rw [hreg'] at this; cases this
+            omega
+          rw [hb, hep]
+          simp [he4, h0]
+      · have := hR.futs
+        rw [hd] at this
+        show sp.futs = m.x.a.futures.length + (if m.destroyed = true then (m.x.a.sendQ ++ [data]).length else 0)
+        rw [hd]
+        simpa using this
+    · refine { hI with pollq := ?_ }
+      intro _
+      show m.x.a.sendQ ++ [data] ≠ []
+      simp
+    · exact ⟨hL'.ordEq, hL'.steps, hL'.recvs, hL'.sends⟩
 
 end SockModel.PeerFail.Spec
